@@ -1,6 +1,24 @@
 From Slsk Require Import Base.Tac.
-From SlskGen Require Import CharTable.
+From SlskGen Require Import CharTable SharesGen.
 From Slsk Require Import C07.Model.
+
+(* ------------------------------------------------------------------ the regenerated decisions (SlskGen.SharesGen)
+   These equations are proved by computation on the text regenerated from the source: they (and everything below that
+   uses them) stop compiling when the source selects another parent, combines the term-map sets differently, compares
+   the cap or the excluded phrases differently. *)
+Lemma choose_parent_eq : forall p ds, choose_parent p ds = best_parent p ds None.
+Proof. reflexivity. Qed.
+Lemma satisfies_eq : forall x alts, satisfies x alts = existsb (filed_under x) alts.
+Proof. reflexivity. Qed.
+Lemma passes_eq : forall x cl, passes x cl = forallb (satisfies x) cl.
+Proof. reflexivity. Qed.
+Lemma query_items_eq : forall s q ph n, query_items s q ph n = firstn n (query_all s q ph).
+Proof. reflexivity. Qed.
+Lemma phrase_free_eq : forall phs x, phrase_free phs x = forallb (fun ph => negb (substring (lower_s ph) (lower_s (qpath x)))) phs.
+Proof. reflexivity. Qed.
+Lemma dir_locked_eq : forall friends d user, dir_locked friends d user =
+  match dmode d with Everyone => false | Friends => negb (mem_str user friends) | Users => negb (mem_str user (dusers d)) end.
+Proof. intros. unfold dir_locked. destruct (dmode d); reflexivity. Qed.
 
 (* ------------------------------------------------------------------ character table *)
 
@@ -339,7 +357,7 @@ Proof. intros s. unfold rebuild. apply tm_inv_fold_build. intros x []. Qed.
 
 Lemma tm_inv_add : forall s p a m us, tm_inv s -> tm_inv (add_raw s p a m us).
 Proof.
-  intros s p a m us H. unfold add_raw. destruct (find_listed p (listed s)); [assumption|].
+  intros s p a m us H. unfold add_raw; rewrite ?choose_parent_eq. destruct (find_listed p (listed s)); [assumption|].
   destruct (best_parent p (listed s) None).
   - apply tm_inv_build. eapply tm_inv_ext; [| |exact H]; reflexivity.
   - eapply tm_inv_ext; [| |exact H]; reflexivity.
@@ -350,7 +368,7 @@ Proof.
   eapply tm_inv_ext; [| |exact H]; reflexivity.
 Qed.
 Lemma tm_inv_remove : forall s p, tm_inv s -> tm_inv (remove_raw s p).
-Proof. intros s p H. unfold remove_raw. destruct (find_listed p (listed s)); [apply tm_inv_rebuild | assumption]. Qed.
+Proof. intros s p H. unfold remove_raw; rewrite ?choose_parent_eq. destruct (find_listed p (listed s)); [apply tm_inv_rebuild | assumption]. Qed.
 Lemma tm_inv_scan : forall s p disk, tm_inv s -> tm_inv (scan_raw s p disk).
 Proof.
   intros s p disk H. unfold scan_raw. destruct (find_listed p (listed s)); [|assumption].
@@ -387,7 +405,7 @@ Proof.
   - assert (M : mem_str u ks = true) by (apply mem_str_In; apply H1; left; reflexivity). rewrite M.
     destruct (IH x) as [cl [E S]]; [intros v Hv; apply H1; right; assumption | intros v Hv; apply H2; right; assumption|].
     rewrite E. exists ([u] :: cl). split; [reflexivity|].
-    intros alts [Ha | Ha]; [|apply S; assumption]. subst alts. unfold satisfies. cbn. unfold filed_under.
+    intros alts [Ha | Ha]; [|apply S; assumption]. subst alts. rewrite satisfies_eq. cbn. unfold filed_under.
     assert (M2 : mem_str u (item_words x) = true) by (apply mem_str_In; apply H2; left; reflexivity). rewrite M2. reflexivity.
 Qed.
 
@@ -421,7 +439,7 @@ Proof.
     { apply filter_In. split; [apply (Hinv x Hx); exact Hw | assumption]. }
     destruct (filter (fun k => ends_with k (c0 :: u0')) (keys s)) as [|k0 m] eqn:EF; [destruct Hk|].
     exists ((k0 :: m) :: cl). split; [reflexivity|].
-    intros alts [Ha | Ha]; [|apply SC; assumption]. subst alts. unfold satisfies. apply existsb_exists.
+    intros alts [Ha | Ha]; [|apply SC; assumption]. subst alts. rewrite satisfies_eq. apply existsb_exists.
     exists w. split; [assumption|]. unfold filed_under. apply mem_str_In. exact Hw.
 Qed.
 
@@ -439,7 +457,7 @@ Proof.
     - intros u Hu. unfold item_words. apply (plain_words t (qpath x)); auto. }
   destruct (collect_all str (wild_keys (keys s)) x (q_wild q)) as [k2 [E2 S2]].
   { intros t Ht. apply wild_keys_ok; auto. }
-  rewrite E1, E2. apply filter_In. split; [assumption|].
+  rewrite E1, E2. apply filter_In. split; [assumption|]. rewrite passes_eq.
   apply forallb_forall. intros alts Ha. apply in_app_or in Ha. destruct Ha; [apply S1 | apply S2]; assumption.
 Qed.
 
@@ -464,7 +482,7 @@ Qed.
 
 Lemma query_sound : forall s q ph n x, In x (query_items s q ph n) ->
   In x (indexed s) /\ matches q x = true /\ phrase_free ph x = true.
-Proof. intros s q ph n x H. apply query_all_sound. unfold query_items in H. eapply firstn_In; eassumption. Qed.
+Proof. intros s q ph n x H. apply query_all_sound. rewrite query_items_eq in H. eapply firstn_In; eassumption. Qed.
 
 Lemma matches_parts : forall q x, matches q x = true ->
   (forall t, In t (q_incl q) -> term_occurs false t (qpath x) = true) /\
@@ -488,7 +506,7 @@ Lemma query_exact : forall s q ph n x,
   tm_inv s -> has_inclusion q = true -> lowered q -> length (query_all s q ph) <= n ->
   (In x (query_items s q ph n) <-> In x (indexed s) /\ matches q x = true /\ phrase_free ph x = true).
 Proof.
-  intros s q ph n x Hinv Hi Hl Hn. unfold query_items. rewrite firstn_all2 by assumption.
+  intros s q ph n x Hinv Hi Hl Hn. rewrite query_items_eq. rewrite firstn_all2 by assumption.
   apply query_all_exact; assumption.
 Qed.
 
@@ -496,7 +514,7 @@ Lemma cap : forall s q ph n,
   length (query_items s q ph n) = Nat.min n (length (query_all s q ph)) /\
   (forall x, In x (query_items s q ph n) -> In x (query_all s q ph)).
 Proof.
-  intros. unfold query_items. split; [apply firstn_length|]. intros x H. eapply firstn_In; eassumption.
+  intros. rewrite query_items_eq. split; [apply firstn_length|]. intros x H. eapply firstn_In; eassumption.
 Qed.
 
 (* the parser only produces lower-cased terms *)
@@ -833,7 +851,7 @@ Proof. intros ds n m [A [B [C D]]] L. split; [assumption|]. split; [assumption|]
 
 Lemma sinv_add : forall s p a m us, sinv s -> sinv (add_raw s p a m us).
 Proof.
-  intros s p a m us H. unfold add_raw. destruct (find_listed p (listed s)) eqn:F; [assumption|].
+  intros s p a m us H. unfold add_raw; rewrite ?choose_parent_eq. destruct (find_listed p (listed s)) eqn:F; [assumption|].
   pose proof (find_listed_none p (listed s) F) as Fresh.
   pose proof H as [N1 [N2 [B [O I]]]].
   destruct (best_parent p (listed s) None) as [par|] eqn:BP.
@@ -896,7 +914,7 @@ Proof. intros A q l e H. apply filter_In in H. tauto. Qed.
 
 Lemma sinv_remove : forall s p, sinv s -> sinv (remove_raw s p).
 Proof.
-  intros s p H. unfold remove_raw. destruct (find_listed p (listed s)) as [d|] eqn:F; [|assumption].
+  intros s p H. unfold remove_raw; rewrite ?choose_parent_eq. destruct (find_listed p (listed s)) as [d|] eqn:F; [|assumption].
   destruct (find_listed_path _ _ _ F) as [Pd Hd]. pose proof H as [N1 [N2 [B [O I]]]].
   set (rest := filter (fun e => negb (eqb_path (dpath e) p)) (listed s)).
   assert (DR : dinv rest (next_id s)).
@@ -1131,7 +1149,7 @@ Proof. intros s s' A B [H1 H2]. split; [eapply sinv_ext; eassumption | rewrite A
 
 Lemma nodup_add : forall s p a m us, sinv2 s -> nodup_l (listed (add_raw s p a m us)).
 Proof.
-  intros s p a m us [H ND]. unfold add_raw. destruct (find_listed p (listed s)) eqn:F; [assumption|].
+  intros s p a m us [H ND]. unfold add_raw; rewrite ?choose_parent_eq. destruct (find_listed p (listed s)) eqn:F; [assumption|].
   pose proof H as [N1 [N2 [B [O I]]]].
   destruct (best_parent p (listed s) None) as [par|] eqn:BP.
   - destruct (best_parent_some p (listed s) par BP) as [A [Hpar Max]].
@@ -1156,7 +1174,7 @@ Qed.
 
 Lemma nodup_remove : forall s p, sinv2 s -> nodup_l (listed (remove_raw s p)).
 Proof.
-  intros s p [H ND]. unfold remove_raw. destruct (find_listed p (listed s)) as [d|] eqn:F; [|assumption].
+  intros s p [H ND]. unfold remove_raw; rewrite ?choose_parent_eq. destruct (find_listed p (listed s)) as [d|] eqn:F; [|assumption].
   destruct (find_listed_path _ _ _ F) as [Pd Hd]. pose proof H as [N1 [N2 [B [O I]]]].
   rewrite (proj1 (rebuild_listed _)). cbn [listed].
   set (rest := filter (fun e => negb (eqb_path (dpath e) p)) (listed s)).
@@ -1345,3 +1363,84 @@ Definition w_P := c [80]. Definition w_C := c [67]. Definition w_top := c [116;1
 Definition ops_zombie : list op :=
   [Add [w_P] (c [97]) Everyone []; Scan [w_P] [([w_P; w_top], 5%N); ([w_P; w_C; w_deep], 6%N)];
    Add [w_P; w_C] (c [98]) Everyone []; Remove [w_P]].
+
+(* ------------------------------------------------------------------ the term-map pass is only an optimisation *)
+
+(* ANY selection of indexed items that keeps every item the regular expressions accept yields the same query result
+   (e.g. the union instead of the intersection of the term-map sets: a superset of the intersection, hence sound) *)
+Lemma prefilter_benign : forall s q ph (pf : list item) x,
+  tm_inv s -> has_inclusion q = true -> lowered q ->
+  (forall y, In y pf -> In y (indexed s)) ->
+  (forall y, In y (indexed s) -> matches q y = true -> In y pf) ->
+  (In x (filter (fun y => matches q y && phrase_free ph y) pf) <-> In x (query_all s q ph)).
+Proof.
+  intros s q ph pf x Hinv Hi Hl Sub Sound. rewrite (query_all_exact s q ph x Hinv Hi Hl). rewrite filter_In. split.
+  - intros [H1 H2]. apply andb_prop in H2. destruct H2. auto.
+  - intros [H1 [H2 H3]]. split; [apply Sound; assumption | rewrite H2, H3; reflexivity].
+Qed.
+
+(* ------------------------------------------------------------------ folder count *)
+
+Lemma existsb_eqb_path_In : forall x l, existsb (eqb_path x) l = true <-> In x l.
+Proof.
+  intros x l. rewrite existsb_exists. split.
+  - intros [y [Hy E]]. apply eqb_path_true in E. subst. assumption.
+  - intros H. exists x. split; [assumption | apply eqb_path_refl].
+Qed.
+
+Lemma dedup_map_equiv : forall A (f g : A -> path) l,
+  (forall a b, In a l -> In b l -> (f a = f b <-> g a = g b)) -> length (dedup (map f l)) = length (dedup (map g l)).
+Proof.
+  intros A f g. induction l as [|x l IH]; intros H; cbn; [reflexivity|].
+  assert (R : length (dedup (map f l)) = length (dedup (map g l))) by (apply IH; intros a b Ha Hb; apply H; right; assumption).
+  assert (E : existsb (eqb_path (f x)) (map f l) = existsb (eqb_path (g x)) (map g l)).
+  { apply eq_true_iff_eq. rewrite !existsb_eqb_path_In, !in_map_iff. split; intros [y [Ey Hy]]; exists y; (split; [|assumption]).
+    - symmetry. apply (H x y); [left; reflexivity | right; assumption | symmetry; assumption].
+    - symmetry. apply (H x y); [left; reflexivity | right; assumption | symmetry; assumption]. }
+  rewrite E. destruct (existsb (eqb_path (g x)) (map g l)); cbn; congruence.
+Qed.
+
+Lemma dedup_app_disjoint : forall l1 l2, (forall a, In a l1 -> ~ In a l2) ->
+  length (dedup (l1 ++ l2)) = length (dedup l1) + length (dedup l2).
+Proof.
+  induction l1 as [|x l1 IH]; intros l2 H; cbn; [reflexivity|].
+  rewrite existsb_app.
+  assert (F : existsb (eqb_path x) l2 = false).
+  { destruct (existsb (eqb_path x) l2) eqn:E; [|reflexivity]. apply existsb_eqb_path_In in E. exfalso. exact (H x (or_introl eq_refl) E). }
+  rewrite F, orb_false_r. specialize (IH l2 (fun a Ha => H a (or_intror Ha))).
+  destruct (existsb (eqb_path x) l1); cbn; lia.
+Qed.
+
+(* the folder count of get_stats is the number of distinct directories (absolute paths) that contain a held file *)
+Lemma stats_folders_l : forall ds n, dinv ds n ->
+  fold_right (fun d k => length (dedup (map isub (ditems d))) + k) 0 ds = length (dedup (map dir_of (flat_map ditems ds))).
+Proof.
+  induction ds as [|d ds IH]; intros n H; cbn; [reflexivity|].
+  pose proof H as [N1 [N2 [B [O I]]]].
+  assert (Hsub : dinv ds n).
+  { apply (dinv_sub (d :: ds) n ds H); [intros e He; right; assumption | cbn in N1; inv N1; assumption]. }
+  rewrite (IH n Hsub). rewrite map_app. rewrite dedup_app_disjoint.
+  - f_equal. apply dedup_map_equiv. intros a b Ha Hb.
+    destruct (O d a (or_introl eq_refl) Ha) as [_ Ea]. destruct (O d b (or_introl eq_refl) Hb) as [_ Eb].
+    unfold dir_of. rewrite Ea, Eb. split; [intros E; rewrite E; reflexivity | intros E; apply app_inv_head in E; assumption].
+  - intros p Hp Hq. apply in_map_iff in Hp. destruct Hp as [x [Ex Hx]]. apply in_map_iff in Hq. destruct Hq as [y [Ey Hy]].
+    apply in_flat_map in Hy. destruct Hy as [d' [Hd' Hy]]. subst p.
+    pose proof (dir_of_owner _ d x O (or_introl eq_refl) Hx) as P1. pose proof (dir_of_owner _ d' y O (or_intror Hd') Hy) as P2.
+    assert (L1 : length (dpath d') <= length (dpath d)) by (apply (I d d' x); auto; [left; reflexivity | right; assumption | rewrite <- Ey; assumption]).
+    assert (L2 : length (dpath d) <= length (dpath d')) by (apply (I d' d y); auto; [right; assumption | left; reflexivity | rewrite Ey; assumption]).
+    assert (E : dpath d = dpath d') by (apply pp_eq; [|lia]; apply (pp_cmp _ _ (dir_of x)); [assumption | rewrite <- Ey; assumption | lia]).
+    cbn in N1. inv N1. apply H2. rewrite E. apply in_map. assumption.
+Qed.
+
+Lemma stats_folders : forall ops, ops_ok ops ->
+  fst (get_stats (run ops)) = length (dedup (map dir_of (listed_items (run ops)))).
+Proof. intros ops OK. unfold get_stats, listed_items. cbn [fst]. apply (stats_folders_l _ _ (sinv_run ops OK)). Qed.
+
+(* a settings list that names a path twice lists the directory twice: the counts double (finding F29) *)
+Definition ops_dup : list op :=
+  [LoadSettings [([w_d], c [97], Everyone, []); ([w_d], c [97], Friends, [])]; Scan [w_d] [([w_d; w_sing], 5%N)]].
+Lemma load_duplicates_refuted : exists ops,
+  ~ NoDup (map dpath (listed (run ops))) /\ snd (get_stats (run ops)) = 2 /\ length (dedup (map abs_path (listed_items (run ops)))) = 1.
+Proof.
+  exists ops_dup. split; [|split; vm_compute; reflexivity]. vm_compute. intros H. inv H. apply H2. left. reflexivity.
+Qed.
